@@ -35,10 +35,17 @@ CHECKS = {
             "(fieldElement2625x4 operations from raw lanes, in package curve) when the CPU has AVX2; TLC evaluates the F_p "
             "specification on each event and the canonical encoding of each output. The oracle's own sqrt_ratio_i/inversion "
             "algorithms are model-checked against their declarative definitions on a complete toy field. Exhaustive over the "
-            "corner families, sampled inside the box (the monotonicity argument of DESIGN.md 5/C04 explains why corners decide overflow).",
+            "corner families, sampled inside the box (the monotonicity argument of DESIGN.md 5/C04 explains why corners decide overflow). "
+            "Word level (radix-2^51 backend): FieldWords.tla gives, per operation, the precondition under which no 64/128-bit intermediate "
+            "wraps for any element under a limb-bound vector, and the bound of the result; MC_C04w proves this calculus sound against "
+            "word semantics WITH wrap-around on complete toy instances (the weakened variant must fail); a shadow execution of limb bounds "
+            "through the mechanically rewritten CURRENT field_u64.go (purego build, under the recorders of eleven other properties) yields "
+            "every distinct bound-transfer instance of the executed paths, each judged by FieldWords.tla at real scale (Trace_C04w), and the "
+            "derived bound vectors are replayed as concrete limbs into the real operations (assembly and portable code).",
             "Trusts TLC/SANY, CommunityModules overrides, BigNat/F25519, go test -overlay. Vector-lane bit excess is taken as 1.5 (the repository "
             "does not document the bound; dalek documents 1.5-2.5).",
-            "TLA+ spec of F_p; TLC trace validation of limb-level recorded executions on three backends",
+            "TLA+ spec of F_p and of the word-level bound calculus (FieldWords.tla); TLC model checking of the calculus on toy instances; TLC trace "
+            "validation of limb-level recorded executions on four backends and of the shadow-executed bound transfers; spec-derived extremal replay",
             "5/C04"),
     "C20": ("model_checking",
             "Exhaustive over the finite space: every embedded constant and every table entry (32x8 fixed-base entries, two 64-entry "
